@@ -33,10 +33,10 @@ def note(k, v=1):
 # ------------------------------------------------------------------------------------------------
 def hierarchies(tier):
     out = []
-    shapes = ["single", "spec_sub", "plain_sub", "spec_sub_plain", "multi", "spec_sub_sub", "spec_plain_spec", "diamond"]
+    shapes = ["single", "spec_sub", "plain_sub", "spec_sub_plain", "multi", "spec_sub_sub", "spec_plain_spec", "diamond", "siblings"]
     for shape, ctor, key, overflow, noinit, factory in itertools.product(
             shapes, ("generated", "handwritten"), (None, "nodefault", "default"), (False, True), (False, True), (False, True)):
-        if shape in ("spec_plain_spec", "diamond") and (key or overflow or noinit or factory):
+        if shape in ("spec_plain_spec", "diamond", "siblings") and (key or overflow or noinit or factory):
             continue
         if ctor == "handwritten" and (key or noinit):
             continue  # the documented hand-written shape has no key handling / init=False attributes
@@ -101,6 +101,13 @@ def classes_of(h):
         cls.append({"name": "Plain", "bases": ["Base"], "spec": False, "decl": {"a": {"ann": False, "default": 0, "init": True}}})
         cls.append({"name": "Leaf3", "bases": ["Plain"], "spec": True, "ctor": "generated", "key": None, "overflow": None, "post_init": False,
                     "decl": {"c": {"ann": True, "default": 13, "init": True}}})
+    if sh == "siblings":
+        # two spec children of one parent that DISAGREE about who owns `b`: whatever is remembered about the parent while
+        # one of them is constructed must not be used for the other
+        cls.append({"name": "Inherits", "bases": ["Base"], "spec": True, "ctor": "generated", "key": None, "overflow": None, "post_init": False,
+                    "decl": {"c": {"ann": True, "default": 13, "init": True}}})
+        cls.append({"name": "Redeclares", "bases": ["Base"], "spec": True, "ctor": "generated", "key": None, "overflow": None, "post_init": False,
+                    "decl": {"b": {"ann": True, "default": 12, "init": True}, "c": {"ann": True, "default": 14, "init": True}}})
     if sh == "diamond":
         cls.append({"name": "Left", "bases": ["Base"], "spec": True, "ctor": "generated", "key": None, "overflow": None, "post_init": False,
                     "decl": {"c": {"ann": True, "default": 13, "init": True}}})
@@ -365,7 +372,7 @@ def judge(h, final, kwargs, positional_key, others_first=False):
 
 def finals(h):
     f = {"single": ["Base"], "spec_sub": ["Base", "Sub"], "plain_sub": ["Plain"], "spec_sub_plain": ["Plain", "Sub"], "multi": ["Multi"],
-         "spec_sub_sub": ["SubSub"], "spec_plain_spec": ["Leaf3", "Plain"], "diamond": ["Bottom", "Right"]}[h["shape"]]
+         "spec_sub_sub": ["SubSub"], "spec_plain_spec": ["Leaf3", "Plain"], "diamond": ["Bottom", "Right"], "siblings": ["Inherits", "Redeclares", "Base"]}[h["shape"]]
     if h["ctor"] == "handwritten":
         # a class whose own __init__ is user-written does not use the generated constructor at all; the
         # hand-written constructor matters as a PARENT constructor only
